@@ -56,6 +56,30 @@ def povmt_row {K : Type} [Mul K] [Sub K] [Zero K] (flag : Bool) (r : K) (m : Nat
     (match c_prime[0]? with | some x0 => some (QM.C08.lsub a_prime (QM.C08.tile ((m - 1)) c_prime), (r * x0)) | none => none)
   else some (c, 0)
 
+/-- quara/protocol/qtomography/standard/standard_qmpt.py:280 `cqpt_to_cqmpt` statement by statement (block_diag / hstack / vstack on lists of rows) -/
+def cqpt_to_cqmpt {K : Type} [Neg K] [Zero K] (flag : Bool) (dim m : Nat) (c_qpt : List (List K)) :
+    Option (List (List K) × List K) :=
+  if flag then
+    let d_qpt : List (List K) := (QM.C08.colsTo (dim ^ 2) c_qpt)
+    let e_qpt : List (List K) := (QM.C08.colsFrom (dim ^ 2) c_qpt)
+    let a_0_left : List (List K) := (QM.C08.blockDiagRep (m - 1) c_qpt)
+    let a_0_right : List (List K) := (QM.C08.zerosMat a_0_left.length (QM.C08.matWidth e_qpt))
+    let a_0 : List (List K) := (QM.C08.hstack2 a_0_left a_0_right)
+    let d_dash : List (List K) := (QM.C08.hstack2 (QM.C08.negMat d_qpt) (QM.C08.zerosMat d_qpt.length ((QM.C08.matWidth c_qpt) - (QM.C08.matWidth d_qpt))))
+    let a_1 : List (List K) := (QM.C08.hstackRep (m - 1) d_dash e_qpt)
+    let a_qmpt : List (List K) := (a_0 ++ a_1)
+    let b_0 : List K := (QM.C08.zeros (d_qpt.length * (m - 1)))
+    match (QM.C08.colAt? 0 d_qpt) with
+    | none => none
+    | some b_1 =>
+      let b_qmpt : List K := (b_0 ++ b_1)
+      some (a_qmpt, b_qmpt)
+  else
+    let c_qmpt : List (List K) := (QM.C08.blockDiagRep m c_qpt)
+    let a_qmpt : List (List K) := c_qmpt
+    let b_qmpt : List K := (QM.C08.zeros c_qmpt.length)
+    some (a_qmpt, b_qmpt)
+
 def qmpt_key (schedule_index element_index : Nat) : Nat × Nat := (schedule_index, element_index)
 
 /-- quara/protocol/qtomography/standard/standard_qmpt.py:280 `cqpt_to_cqmpt`: columns of `d_qpt` / start of `e_qpt`, number of diagonal blocks with and without the flag, column of `d_qpt` that gives `b_1` -/
@@ -67,7 +91,6 @@ def qmpt_b1_col : Nat := 0
 /-- quara/protocol/qtomography/standard/standard_qmpt.py:114 `num_outcomes` -/
 def qmpt_num_outcomes (num_outcomes_povm num_outcomes_mprocess : Nat) : Nat := (num_outcomes_povm * num_outcomes_mprocess)
 
-/-- standard_qtomography.py: `calc_matA / calc_vecB` = `sorted(dict.items())` → values → vstack; `calc_prob_dists` = `matA @ var + vecB`, `reshape((num_schedules, -1))`, `truncate_and_normalize`; `calc_prob_dist` = entry `[schedule_index]` (checked structurally by the translator, which raises otherwise) -/
-def assembly_shape_checked : Bool := true
+/-! Checked structurally by the translator (it raises otherwise, nothing is generated for them): `calc_matA / calc_vecB` = `sorted(dict.items())` → values → vstack; `calc_prob_dists` = `matA @ var + vecB`, `reshape((num_schedules, -1))`, `truncate_and_normalize`; `calc_prob_dist` = entry `[schedule_index]`. -/
 
 end QGen.C08
